@@ -96,6 +96,12 @@ Proof.
   intros x r g. destruct (h_add_rule_cases x r g) as [E|E]; rewrite E; [reflexivity | discriminate].
 Qed.
 
+Lemma upd_weights_atomic : forall t n u,
+    is_err (snd (t_upd_weights t n u)) = true -> fst (t_upd_weights t n u) = t.
+Proof.
+  intros t n u. unfold t_upd_weights. destruct (aget Nat.eq_dec (t_fac t) n); cbn; [discriminate | reflexivity].
+Qed.
+
 Theorem step_atomic : forall s o, is_err (snd (step s o)) = true -> objs (fst (step s o)) = objs s.
 Proof.
   intros s o. destruct o; cbn [step].
@@ -135,6 +141,7 @@ Proof.
   - apply on_tab_atomic. intros t0. apply add_factor_atomic.
   - apply on_tab_atomic. intros t0. apply add_domain_atomic.
   - apply on_tab_atomic. intros t0. apply new_finite_factor_atomic.
+  - apply on_tab_atomic. intros t0. apply upd_weights_atomic.
   - destruct (nth_error (objs s) h1), (nth_error (objs s) h2); reflexivity.
 Qed.
 
@@ -358,6 +365,7 @@ Proof.
   - apply on_hrg_pl; [assumption|]. intros; apply h_set_start_interp.
   - apply on_tab_pl; [assumption|]. right. intros t0. cbn. auto.
   - apply on_tab_pl; [assumption|]. right. intros t0. apply add_edge_label_interp.
+  - apply on_tab_pl; [assumption|]. left. reflexivity.
   - apply on_tab_pl; [assumption|]. left. reflexivity.
   - apply on_tab_pl; [assumption|]. left. reflexivity.
   - apply on_tab_pl; [assumption|]. left. reflexivity.
